@@ -20,6 +20,9 @@ import LinVerif.Lemmas.C16Route
 import LinVerif.Lemmas.C16Escape
 import LinVerif.Lemmas.C16Influx
 import LinVerif.Lemmas.C16FlatAgree
+import LinVerif.Lemmas.C16Ident
+import LinVerif.Lemmas.C16RoutePerm
+import LinVerif.Lemmas.C16ProtoConv
 import LinVerif.Generated.C16
 
 namespace LinVerif.Props.C16
@@ -276,6 +279,71 @@ theorem groups_distinct (jump : Nat → Nat → Nat) (C : Calc) (hC : CalcSpec C
     · intro a x b hax hxb hp
       simp only [sameShard, beq_iff_eq] at hp ⊢
       omega
+
+/-- **route_group_is_key_class**: a group handed to a family channel is EXACTLY the class of its key: the
+rows of the batch (shards assigned) whose shard `jump hash n` and family time are the group's — all of them,
+each once. So what a row is grouped with is decided by its own (shard, family) alone. -/
+theorem route_group_is_key_class (jump : Nat → Nat → Nat) (C : Calc) (hC : CalcSpec C)
+    {sortShard sortTs : List BRow → List BRow}
+    (hss : SortSpec lessShard sortShard) (hst : SortSpec lessTs sortTs)
+    (n : Nat) (hj : ∀ k, jump k n < n) (rows : List BRow)
+    (g : Group) (hg : g ∈ route jump C sortShard sortTs n rows) :
+    g.rows.Perm ((assignShards jump n rows).filter
+      (fun r => decide (r.shard = g.shard ∧ C.famTime r.row.ts = g.famTime))) := by
+  obtain ⟨hperm, hgroups⟩ := partition jump C hC hss hst n hj rows
+  have hd := groups_distinct jump C hC hss hst n rows
+  let k : BRow → Bool := fun r => decide (r.shard = g.shard ∧ C.famTime r.row.ts = g.famTime)
+  have h1 := hperm.filter k
+  rw [List.filter_flatMap] at h1
+  have hkey : (route jump C sortShard sortTs n rows).Pairwise
+      (fun a b => (fun x : Group => (x.shard, x.famTime)) a ≠ (fun x : Group => (x.shard, x.famTime)) b) :=
+    hd.imp (fun {a b} h e => h ⟨congrArg Prod.fst e, congrArg Prod.snd e⟩)
+  have h2 := flatMap_single_key (fun x : Group => (x.shard, x.famTime)) (fun a => a.rows.filter k)
+    (route jump C sortShard sortTs n rows) hkey g hg (by
+      intro a ha hne
+      rw [List.filter_eq_nil_iff]
+      intro r hr hk
+      obtain ⟨e1, _, e3, _⟩ := (hgroups a ha).2.2 r hr
+      simp only [k, decide_eq_true_eq] at hk
+      exact hne (by rw [← e1, ← e3, hk.1, hk.2]))
+  have h3 : g.rows.filter k = g.rows := by
+    rw [List.filter_eq_self]
+    intro r hr
+    obtain ⟨e1, _, e3, _⟩ := (hgroups g hg).2.2 r hr
+    simp [k, e1, e3]
+  rw [h2, h3] at h1
+  exact h1
+
+/-- **route_permutation_invariant** (the whole `route`, not just a row's placement): two batches holding the
+same rows in ANY order — shuffled by the client, by the pool, by `sort.Sort`'s choices among equal shards or
+timestamps (any two conforming pairs of sorts) — are routed into the same groups: every (shard, family)
+group of one has a group of the other with the same shard, the same family time and the same rows up to
+order. By symmetry the correspondence goes both ways. -/
+theorem route_permutation_invariant (jump : Nat → Nat → Nat) (C : Calc) (hC : CalcSpec C)
+    {ss₁ st₁ ss₂ st₂ : List BRow → List BRow}
+    (h₁s : SortSpec lessShard ss₁) (h₁t : SortSpec lessTs st₁)
+    (h₂s : SortSpec lessShard ss₂) (h₂t : SortSpec lessTs st₂)
+    (n : Nat) (hj : ∀ k, jump k n < n) (rows₁ rows₂ : List BRow) (hp : rows₁.Perm rows₂)
+    (g₁ : Group) (hg₁ : g₁ ∈ route jump C ss₁ st₁ n rows₁) :
+    ∃ g₂ ∈ route jump C ss₂ st₂ n rows₂,
+      g₂.shard = g₁.shard ∧ g₂.famTime = g₁.famTime ∧ g₁.rows.Perm g₂.rows := by
+  obtain ⟨hperm₁, hgroups₁⟩ := partition jump C hC h₁s h₁t n hj rows₁
+  obtain ⟨hperm₂, hgroups₂⟩ := partition jump C hC h₂s h₂t n hj rows₂
+  have hL : (assignShards jump n rows₁).Perm (assignShards jump n rows₂) := hp.map _
+  obtain ⟨_, hne, hmem⟩ := hgroups₁ g₁ hg₁
+  obtain ⟨r, hr⟩ := List.exists_mem_of_ne_nil _ hne
+  have hr1 : r ∈ assignShards jump n rows₁ := hperm₁.subset (List.mem_flatMap.2 ⟨g₁, hg₁, hr⟩)
+  have hr2 : r ∈ (route jump C ss₂ st₂ n rows₂).flatMap (fun g => g.rows) := hperm₂.symm.subset (hL.subset hr1)
+  obtain ⟨g₂, hg₂, hr₂⟩ := List.mem_flatMap.1 hr2
+  obtain ⟨a1, _, a3, _⟩ := hmem r hr
+  obtain ⟨b1, _, b3, _⟩ := (hgroups₂ g₂ hg₂).2.2 r hr₂
+  have es : g₂.shard = g₁.shard := by rw [← a1, ← b1]
+  have ef : g₂.famTime = g₁.famTime := by rw [← a3, ← b3]
+  refine ⟨g₂, hg₂, es, ef, ?_⟩
+  have c1 := route_group_is_key_class jump C hC h₁s h₁t n hj rows₁ g₁ hg₁
+  have c2 := route_group_is_key_class jump C hC h₂s h₂t n hj rows₂ g₂ hg₂
+  rw [es, ef] at c2
+  exact c1.trans ((hL.filter _).trans c2.symm)
 
 /-- **routing does not depend on which shard channels exist**: the groups are formed with the
 configured shard count `n`; with an arbitrary set `present` of existing channels
@@ -563,7 +631,7 @@ theorem typeSwitch_expected : Generated.C16.typeSwitch = [
 
 /-- `build`: validate, de-duplicate, then hash the de-duplicated tags -/
 theorem marshalPipeline_expected : Generated.C16.marshalPipeline =
-  ["rc.validateMetric", "rc.deDupTags", "flatMetricsV1.MetricAddNamespace", "flatMetricsV1.MetricAddName",
+  ["rc.resetForNextConverter", "rc.validateMetric", "rc.deDupTags", "flatMetricsV1.MetricAddNamespace", "flatMetricsV1.MetricAddName",
    "rc.hashOfName", "flatMetricsV1.MetricAddTimestamp", "tag.XXHashOfKeyValues", "flatMetricsV1.MetricAddKvsHash"] := rfl
 
 /-- `kvsHash`: IsSorted, else Sort, then the concatenation hash -/
@@ -1064,6 +1132,226 @@ example :
     (FlatRow.decodeTo ⟨cfg0, 256⟩ (insertionSort (less false)) (fun s => s.length) dirtyDec row0).2.toOption.isSome = true := by
   decide
 
+/-! ## the stored identity is a function of the stored spelling — in every format -/
+
+section identity
+open LinVerif.C16Ident LinVerif.FlatRow
+
+/-- **proto_identity_of_stored_spelling**: whichever of the SOUND placements of the sanitiser the protobuf
+converter uses (in place in validateMetric; or at both uses of the string), an accepted metric is stored
+under the sanitised name and namespace — neither contains the storage delimiter '|' — and its NameHash is
+the hash of exactly those two stored strings. For every metric, request namespace, hash, sort. -/
+theorem proto_identity_of_stored_spelling (fn fs : NameFlow) (hn : fn.sound = true) (hs : fs.sound = true)
+    (tb : Bool) (sort : List Tag → List Tag) (H : String → Nat) (c : Cfg) (m : PMetric) (s : Stored)
+    (h : convertF fn fs tb sort H c (some m) = .ok s) :
+    s.name = sanitizeName m.name ∧ s.ns = sanitizeName (rawNs c m) ∧
+    s.nameHash = H (s.ns ++ s.name) ∧ '|' ∉ s.name.toList ∧ '|' ∉ s.ns.toList := by
+  simp only [convertF] at h
+  cases hv : validate c (some m) with
+  | error e => rw [hv] at h; cases h
+  | ok v =>
+    rw [hv] at h
+    have e := (Except.ok.inj h).symm
+    subst e
+    have h1 := stored_of_sound fn hn m.name
+    have h2 := stored_of_sound fs hs (rawNs c m)
+    refine ⟨h1, h2, ?_, ?_, ?_⟩
+    · show H (fs.hashed (rawNs c m) ++ fn.hashed m.name) = H (fs.stored (rawNs c m) ++ fn.stored m.name)
+      rw [hashed_of_sound fn hn, hashed_of_sound fs hs]
+    · show '|' ∉ (fn.stored m.name).toList
+      rw [h1]; exact sanitizeName_clean _
+    · show '|' ∉ (fs.stored (rawNs c m)).toList
+      rw [h2]; exact sanitizeName_clean _
+
+/-- the rows any of the format models can store: the protobuf converter (any sound placement of the
+sanitiser, any conforming sort), lindb/common's RowBuilder in ANY state that builds (the flat decoder and the
+influx line parser both end in `RowBuilder.Build`), the flat decoder in any pool state -/
+inductive StoredBy (H : String → Nat) : Stored → Prop
+  | proto (fn fs : NameFlow) (hn : fn.sound = true) (hs : fs.sound = true) (tb : Bool)
+      (sort : List Tag → List Tag) (hsort : SortSpec (less tb) sort) (c : Cfg) (m : PMetric) (s : Stored)
+      (h : convertF fn fs tb sort H c (some m) = .ok s) : StoredBy H s
+  | builder (sortK : List Tag → List Tag) (now : Int) (b : RB) (s : Stored)
+      (h : (b.build sortK H now).2 = .ok s) : StoredBy H s
+  | flat (fc : FCfg) (sortK : List Tag → List Tag) (d : Dec) (r : FRow) (s : Stored)
+      (h : (decodeTo fc sortK H d r).2 = .ok s) : StoredBy H s
+
+/-- **stored_hashes_of_stored_spelling**: in every format model the two stored hashes are functions of what
+is STORED: NameHash = H(stored namespace ++ stored name), tags hash = H(`k=v,…` of the stored tags) — never
+of a spelling that was sent and rewritten on the way. -/
+theorem stored_hashes_of_stored_spelling (H : String → Nat) (s : Stored) (h : StoredBy H s) :
+    s.nameHash = H (s.ns ++ s.name) ∧ s.hash = H (concatKVs s.tags) := by
+  cases h with
+  | proto fn fs hn hs tb sort hsort c m s h =>
+    rw [convertF_sound fn fs hn hs] at h
+    have hc := canonical tb hsort H c m s h
+    exact ⟨hc.2.2.2.2.2.2.2.2.2.2, hc.2.2.2.2.2.2.2.2.2.1⟩
+  | builder sortK now b s h =>
+    unfold RB.build at h
+    split at h
+    · cases h
+    · split at h
+      · cases h
+      · have e := (Except.ok.inj h).symm
+        subst e
+        exact ⟨rfl, rfl⟩
+  | flat fc sortK d r s h =>
+    rw [decodeTo_result] at h
+    obtain ⟨_, rfl⟩ := valid_of_flatSpec fc sortK H r s h
+    exact ⟨rfl, rfl⟩
+
+/-- **identity_function_of_stored_spelling** (cross-format): two rows stored by ANY two formats under the
+same namespace, name and tags carry the same NameHash and the same tags hash, and go to the same shard for
+every shard count and every jump function. -/
+theorem identity_function_of_stored_spelling (H : String → Nat) (s₁ s₂ : Stored)
+    (h₁ : StoredBy H s₁) (h₂ : StoredBy H s₂)
+    (hns : s₁.ns = s₂.ns) (hname : s₁.name = s₂.name) (htags : s₁.tags = s₂.tags) :
+    s₁.nameHash = s₂.nameHash ∧ s₁.hash = s₂.hash ∧
+    ∀ (jump : Nat → Nat → Nat) (n : Nat), jump s₁.hash n = jump s₂.hash n := by
+  obtain ⟨a₁, b₁⟩ := stored_hashes_of_stored_spelling H s₁ h₁
+  obtain ⟨a₂, b₂⟩ := stored_hashes_of_stored_spelling H s₂ h₂
+  have e : s₁.hash = s₂.hash := by rw [b₁, b₂, htags]
+  exact ⟨by rw [a₁, a₂, hns, hname], e, fun jump n => by rw [e]⟩
+
+/-- the metric in its sanitised spelling -/
+def sanitisedSpelling (m : PMetric) : PMetric := { m with name := sanitizeName m.name, ns := sanitizeName m.ns }
+/-- the request with its namespace in the sanitised spelling -/
+def sanitisedCfg (c : Cfg) : Cfg := { c with reqNs := sanitizeName c.reqNs }
+
+/-- **identity_spelling_invariant**: a metric whose name / namespace / request namespace contain '|' and the
+same metric sent in the sanitised spelling are ONE stored metric: accepted together (the name-length rule
+counts bytes, '|' and '_' are one byte each), and stored as the same row — same namespace, name, NameHash,
+tags, tags hash, everything. -/
+theorem identity_spelling_invariant (tb : Bool) (sort : List Tag → List Tag) (H : String → Nat)
+    (c : Cfg) (m : PMetric) :
+    convert tb sort H (sanitisedCfg c) (some (sanitisedSpelling m)) = convert tb sort H c (some m) := by
+  have hreq : (sanitizeName c.reqNs ≠ "") ↔ (c.reqNs ≠ "") := not_congr (sanitizeName_eq_empty _)
+  have hvm : vmetricOf (sanitisedCfg c) (sanitisedSpelling m) = vmetricOf c m := by
+    simp only [vmetricOf, sanitisedCfg, sanitisedSpelling, sanitizeName_idem]
+    by_cases hr : c.reqNs = ""
+    · simp [hr, sanitizeName_idem, (sanitizeName_eq_empty "").2 rfl]
+      rfl
+    · have hr' : sanitizeName c.reqNs ≠ "" := hreq.2 hr
+      simp [hr, hr', sanitizeName_idem]
+      rfl
+  have hvalid : Valid (sanitisedCfg c) (sanitisedSpelling m) ↔ Valid c m := by
+    constructor
+    · intro v
+      exact ⟨fun e => v.name_ne ((sanitizeName_eq_empty _).2 e),
+        by simpa [sanitisedCfg, sanitisedSpelling, blen_sanitizeName] using v.name_len,
+        v.has_field, v.tags_count, v.tags_ok, v.fields_count, v.fields_ok, v.compound_ok⟩
+    · intro v
+      exact ⟨fun e => v.name_ne ((sanitizeName_eq_empty _).1 e),
+        by simpa [sanitisedCfg, sanitisedSpelling, blen_sanitizeName] using v.name_len,
+        v.has_field, v.tags_count, v.tags_ok, v.fields_count, v.fields_ok, v.compound_ok⟩
+  unfold convert
+  by_cases hv : Valid c m
+  · rw [validate_of_valid c m hv, validate_of_valid _ _ (hvalid.2 hv), hvm]
+  · cases h1 : validate c (some m) with
+    | ok v => exact absurd (valid_of_validate c m v h1).1 hv
+    | error e =>
+      cases h2 : validate (sanitisedCfg c) (some (sanitisedSpelling m)) with
+      | ok v => exact absurd (hvalid.1 (valid_of_validate _ _ v h2).1) hv
+      | error e' =>
+        -- the same rule fails: validate reads the two spellings through `= ""` and `blen` only
+        have : validate (sanitisedCfg c) (some (sanitisedSpelling m)) = validate c (some m) := by
+          simp only [validate, sanitisedCfg, sanitisedSpelling, blen_sanitizeName, sanitizeName_eq_empty]
+          by_cases hr : c.reqNs = ""
+          · simp [hr, sanitizeName_idem, (sanitizeName_eq_empty "").2 rfl]
+            rfl
+          · have hr' : sanitizeName c.reqNs ≠ "" := hreq.2 hr
+            simp [hr, hr', sanitizeName_idem]
+            rfl
+        rw [h2, h1] at this
+        rw [this]
+
+/-- the placement of the sanitiser the source has NOW (regenerated) is a sound one, for the name … -/
+theorem protoNameFlow_sound : (NameFlow.ofTriple Generated.C16.protoNameFlow).sound = true := by decide
+/-- … and for the namespace -/
+theorem protoNsFlow_sound : (NameFlow.ofTriple Generated.C16.protoNsFlow).sound = true := by decide
+
+/-- hashOfName hashes the namespace (when not empty) followed by the name, as `convertF` does -/
+theorem hashOfNameSrc_expected : Generated.C16.hashOfNameSrc =
+    "rc.hashBuf.Reset() ; if m.Namespace != \"\" { _, _ = rc.hashBuf.WriteString(m.Namespace) } ; _, _ = rc.hashBuf.WriteString(m.Name) ; return xxhash.Sum64(rc.hashBuf.Bytes())" := rfl
+
+/-- non-vacuity: all three formats store the witness `cpu|load` of namespace `te|am` under one identity -/
+example :
+    let H : String → Nat := fun s => s.length * 1000 + (s.toList.map Char.toNat).sum
+    let mp : PMetric := ⟨"cpu|load", "te|am", 5, [some ⟨"host", "h1"⟩], [some ⟨"f", 1, .num 1⟩], none⟩
+    let fr : FRow := ⟨"cpu|load", "te|am", 5, [⟨"host", "h1"⟩], [⟨"f", 1, .num 1⟩], none⟩
+    (convertF .current .current true (insertionSort (less true)) H cfg0 (some mp)).toOption.map
+        (fun s => (s.ns, s.name, s.nameHash, s.hash)) =
+      (decodeTo ⟨cfg0, 256⟩ (insertionSort (less false)) H Dec.fresh fr).2.toOption.map
+        (fun s => (s.ns, s.name, s.nameHash, s.hash)) ∧
+    (convertF .current .current true (insertionSort (less true)) H cfg0 (some mp)).toOption.map
+        (fun s => (s.ns, s.name)) = some ("te_am", "cpu_load") := by
+  decide
+
+end identity
+
+/-! ## the pooled protobuf converter: a history of requests on one converter object -/
+
+section protoPool
+open LinVerif.C16Ident LinVerif.C16ProtoConv
+
+/-- **proto_converter_refines_convert** (refinement, for EVERY state of the pooled converter — offset slices
+left by an accepted row or by a row rejected at any rule, hash buffer, namespace / enriched tags / limits of
+the request it serves): what `ConvertTo` hands to `FromBlock`, or the error `TryAppend` sees, is the
+stateless conversion of the metric alone under the converter's request context. -/
+theorem proto_converter_refines_convert (fn fs : NameFlow) (tb : Bool) (sort : List Tag → List Tag)
+    (H : String → Nat) (now : Int) (pc : PC) (m : Option PMetric) :
+    (pc.marshal fn fs tb sort H now m).2 = convertF fn fs tb sort H (pc.cfg now) m :=
+  marshal_result fn fs tb sort H now pc m
+
+/-- **proto_converter_history_no_state_leak** (histories of any length): requests with their own namespace,
+enriched tags, limits and metrics, served one after the other by ONE converter object from the pool — in
+whatever state `pc`, `pc'` the pool hands it out — give, request by request and metric by metric, the stateless
+conversion under THAT request's context: nothing of an earlier row or an earlier request (tags, field names,
+namespace, enriched tags, limits, hashed name) reaches a later one. -/
+theorem proto_converter_history_no_state_leak (fn fs : NameFlow) (tb : Bool) (sort : List Tag → List Tag)
+    (H : String → Nat) (now : Int) (pc pc' : PC) (reqs : List Req) :
+    (PC.history fn fs tb sort H now pc reqs).2 = (PC.history fn fs tb sort H now pc' reqs).2 ∧
+    (PC.history fn fs tb sort H now pc reqs).2 =
+      reqs.map (fun rq => rq.metrics.map (convertF fn fs tb sort H (rq.cfg now))) := by
+  rw [history_result, history_result]
+  exact ⟨rfl, rfl⟩
+
+/-- … and with the placement of the sanitiser the source has now, that is `Row.convert`, the function all
+the theorems above are about -/
+theorem proto_converter_history_is_convert (tb : Bool) (sort : List Tag → List Tag)
+    (H : String → Nat) (now : Int) (pc : PC) (reqs : List Req) :
+    (PC.history (.ofTriple Generated.C16.protoNameFlow) (.ofTriple Generated.C16.protoNsFlow) tb sort H now pc reqs).2 =
+      reqs.map (fun rq => rq.metrics.map (convert tb sort H (rq.cfg now))) := by
+  rw [history_result]
+  apply List.map_congr_left
+  intro rq _
+  apply List.map_congr_left
+  intro m _
+  exact convertF_sound _ _ (by decide) (by decide) tb sort H _ m
+
+/-- ties: what is truncated per metric, what per request, how the pool hands the converter out -/
+theorem protoResetForNextSrc_expected : Generated.C16.protoResetForNextSrc =
+    "rc.flatBuilder.Reset() ; rc.keys = rc.keys[:0] ; rc.values = rc.values[:0] ; rc.fieldNames = rc.fieldNames[:0] ; rc.kvs = rc.kvs[:0] ; rc.fields = rc.fields[:0]" := rfl
+theorem protoResetSrc_expected : Generated.C16.protoResetSrc =
+    "rc.resetForNextConverter() ; rc.namespace = rc.namespace[:0] ; rc.enrichedTags = rc.enrichedTags[:0]" := rfl
+theorem protoNewConverterSrc_expected : Generated.C16.protoNewConverterSrc =
+    "releaseFunc = func(cvt *BrokerRowProtoConverter) { rowConverterPool.Put(cvt) } ; item := rowConverterPool.Get() ; if item == nil { cvt = NewProtoConverter(limits) } else { cvt = item.(*BrokerRowProtoConverter) } ; cvt.Reset() ; cvt.namespace = namespace ; cvt.enrichedTags = enrichedTags ; cvt.limits = limits ; return cvt, releaseFunc" := rfl
+theorem protoConvertToSrc_expected : Generated.C16.protoConvertToSrc =
+    "block, err := rc.MarshalProtoMetricV1(m) ; if err != nil { return err } ; row.FromBlock(block) ; return nil" := rfl
+
+/-- non-vacuity: a converter left dirty by a many-tag row of another namespace converts the next request's
+metric exactly as a brand-new one does, and accepts it -/
+example :
+    let H : String → Nat := fun s => s.length
+    let dirty : PC := ⟨[⟨"z", "9"⟩], [⟨"z", "9"⟩, ⟨"y", "8"⟩], ["old"], [⟨"old", 1, .num 7⟩], "old|ns", [⟨"e", "1"⟩], "oldnsold", lim0⟩
+    let rq : Req := ⟨"te|am", [⟨"dc", "eu"⟩], lim0, [some m0, none, some m0]⟩
+    (PC.history .current .current true (insertionSort (less true)) H 1000 dirty [rq]).2 =
+      (PC.history .current .current true (insertionSort (less true)) H 1000 (PC.fresh lim0) [rq]).2 ∧
+    ((PC.history .current .current true (insertionSort (less true)) H 1000 dirty [rq]).2.map
+      (fun out => out.map (fun r => r.toOption.isSome))) = [[true, false, true]] := by
+  decide
+
+end protoPool
+
 /-! ## proved negations -/
 namespace Neg
 
@@ -1135,6 +1423,49 @@ theorem channel_not_found_error_overwritten :
     deliver (fun s => s == 2) [⟨1, 0, []⟩, ⟨2, 0, []⟩] = ([⟨2, 0, []⟩], false) ∧
     deliver (fun s => s == 1) [⟨1, 0, []⟩, ⟨2, 0, []⟩] = ([⟨1, 0, []⟩], true) := by
   constructor <;> rfl
+
+/-- seeded c16-21's placement — sanitise only where the string is written into the row, hash what
+validateMetric left (the raw spelling) — is NOT sound: `cpu|load` is stored under `cpu_load` with the hash of
+`cpu|load`, so the stored NameHash is not the hash of the stored spelling, and the same stored metric sent as
+`cpu_load` gets another identity. For every hash that tells the two spellings apart. -/
+def flowStoreOnly : C16Ident.NameFlow := ⟨false, true, false⟩
+def mPipe : PMetric := ⟨"cpu|load", "ns", 5, [], [some ⟨"f", 1, .num 1⟩], none⟩
+def mUnderscore : PMetric := ⟨"cpu_load", "ns", 5, [], [some ⟨"f", 1, .num 1⟩], none⟩
+theorem hash_of_unsanitised_spelling_splits_identity (H : String → Nat) (hH : H "nscpu|load" ≠ H "nscpu_load") :
+    flowStoreOnly.sound = false ∧
+    ∃ s₁ s₂,
+      C16Ident.convertF flowStoreOnly flowStoreOnly true (insertionSort (less true)) H cfg0 (some mPipe) = .ok s₁ ∧
+      C16Ident.convertF flowStoreOnly flowStoreOnly true (insertionSort (less true)) H cfg0 (some mUnderscore) = .ok s₂ ∧
+      s₁.name = "cpu_load" ∧ s₁.ns = s₂.ns ∧ s₁.name = s₂.name ∧ s₁.tags = s₂.tags ∧
+      s₁.nameHash ≠ H (s₁.ns ++ s₁.name) ∧ s₁.nameHash ≠ s₂.nameHash := by
+  have n1 : flowStoreOnly.stored mPipe.name = "cpu_load" := by decide
+  have n2 : flowStoreOnly.stored mUnderscore.name = "cpu_load" := by decide
+  have s1 : flowStoreOnly.stored (C16Ident.rawNs cfg0 mPipe) = "ns" := by decide
+  have s2 : flowStoreOnly.stored (C16Ident.rawNs cfg0 mUnderscore) = "ns" := by decide
+  have g1 : (flowStoreOnly.hashed (C16Ident.rawNs cfg0 mPipe) ++ flowStoreOnly.hashed mPipe.name : String) = "nscpu|load" := by
+    decide
+  have g2 : (flowStoreOnly.hashed (C16Ident.rawNs cfg0 mUnderscore) ++ flowStoreOnly.hashed mUnderscore.name : String) =
+      "nscpu_load" := by decide
+  have g3 : ("ns" ++ "cpu_load" : String) = "nscpu_load" := by decide
+  -- both spellings pass validateMetric and leave the same rewritten metric (closed terms: `decide`)
+  have v1 : validate cfg0 (some mPipe) = .ok ⟨"cpu_load", "ns", 5, [], [⟨"f", 1, .num 1⟩], none⟩ := by decide
+  have v2 : validate cfg0 (some mUnderscore) = .ok ⟨"cpu_load", "ns", 5, [], [⟨"f", 1, .num 1⟩], none⟩ := by decide
+  -- the two stored rows, explicitly: equal but for the name hash
+  let S : Nat → Stored := fun nh => ⟨"cpu_load", "ns", 5, [], [⟨"f", 1, .num 1⟩], none, H "", nh⟩
+  have c1 : C16Ident.convertF flowStoreOnly flowStoreOnly true (insertionSort (less true)) H cfg0 (some mPipe) =
+      .ok (S (H "nscpu|load")) := by
+    simp only [C16Ident.convertF, v1]
+    rw [n1, s1, g1]
+    rfl
+  have c2 : C16Ident.convertF flowStoreOnly flowStoreOnly true (insertionSort (less true)) H cfg0 (some mUnderscore) =
+      .ok (S (H "nscpu_load")) := by
+    simp only [C16Ident.convertF, v2]
+    rw [n2, s2, g2]
+    rfl
+  refine ⟨by decide, S (H "nscpu|load"), S (H "nscpu_load"), c1, c2, rfl, rfl, rfl, rfl, ?_, hH⟩
+  show H "nscpu|load" ≠ H ("ns" ++ "cpu_load")
+  rw [g3]
+  exact hH
 
 /-- the two histogram rule sets differ: a histogram with exactly two buckets is rejected by validateMetric
 (`len(Values) <= 2`) and accepted by RowBuilder.AddCompoundFieldData (`len(values) < 2`) — outside
